@@ -323,7 +323,7 @@ impl Monitor for C01 {
             return;
         }
         ctx.count("in_domain");
-        let style = *rng.pick(&[AttrStyle::Map, AttrStyle::Node, AttrStyle::Any]);
+        let style = *rng.pick(&crate::build::STYLES);
         let mut xot = Xot::new();
         let built = match guard(|| build::build(&mut xot, &doc, route, style)) {
             Ok(Ok(h)) => h,
